@@ -457,6 +457,17 @@ def message_cases(ctx):
             out.append(('synthetic', tid, name, synth_dict(rng, cls, False)))
         out.append(('synthetic-full-width', tid, name, synth_dict(rng, cls, True)))
         out.append(('synthetic-full-width', tid, name, synth_dict(rng, cls, True)))
+        # over-long variable-length values (the encoder cuts them to the field width): still an encodable message, and its
+        # sentences must be well formed -- in particular never longer than 82 characters
+        for f in cls.fields():
+            md = f.metadata
+            if md['variable_length'] and md['d_type'] in (bytes, str):
+                for extra in (1, 37, 450, 1200):
+                    d = synth_dict(rng, cls, True)
+                    n = (md['width'] + 7) // 8 if md['d_type'] is bytes else md['width'] // 6
+                    d[f.name] = (bytes(rng.randrange(256) for _ in range(n + extra)) if md['d_type'] is bytes
+                                 else ''.join(rng.choice([c for c in SIXBIT_TEXT if c != ' ']) for _ in range(n + extra)))
+                    out.append(('over-long:' + f.name, tid, name, d))
     # defaults only
     for tid in range(1, 28):
         out.append(('defaults', tid, M.MSG_CLASS[tid].__name__, {'mmsi': rng.randrange(1 << 30)}))
@@ -547,6 +558,13 @@ def run_messages(ctx, cases, want_samples=True):
         p_spec, fill_spec = unhx(p_spec), int(fill_spec)
         if (p_spec, fill_spec) != ais.armor(bits):
             rep.internal(f'Spec/FrameSpec.v fs_spec_armor and tools/ais.py armor disagree on {bits}')
+            continue
+        too_long = [x for x in im[1] if len(x) > 80]
+        if too_long:
+            # the length clause holds for every MESSAGE the entry points accept, whatever bits the message classes produce
+            rep.violation({'entry': entry, 'class': name, 'component': 'length', 'kind': 'clause-violated'},
+                          f'{label}: a sentence of {len(too_long[0])} characters ({len(too_long[0]) + 2} with CR LF): '
+                          f'{too_long[0][:100]}', replay)
             continue
         if len(p_spec) > 540:
             continue
